@@ -269,6 +269,28 @@ func (g *Gen) CoroutineProgram() *Chunk {
 			CallSN("emit", Str("host-body-dead"), co("resume", N(hc))))
 		g.cover("co:host-function-body")
 	}
+	// a host function as the iterator of a generic for inside a coroutine: it is
+	// called across a host boundary like any iterator, so a yielding one is refused
+	if g.R.Intn(8) == 0 {
+		b.Stmts = append(b.Stmts,
+			CallSN("emit", Str("yielding-host-iterator"), co("resume", co("create", Fn(nil, false, Blk(
+				CallSN("emit", Str("in-co"), CallN("pcall", Fn(nil, false, Blk(
+					&SGenFor{Names: []string{"v"}, Exprs: []Expr{Dot(N("coroutine"), "yield"), Str("st"), Num(1)}, Body: Blk(CallSN("emit", Str("body"), N("v")), &SBreak{})})))),
+				Return(Str("co-done"))))))),
+			CallSN("emit", Str("hostret-iterator"), co("resume", co("create", Fn(nil, false, Blk(
+				&SGenFor{Names: []string{"a", "b"}, Exprs: []Expr{N("hostret"), Num(2), Num(0)}, Body: Blk(CallSN("emit", Str("body2"), N("a"), N("b")), &SBreak{})},
+				Return(Str("co-done2"))))))))
+		g.cover("co:host-iterator")
+	}
+	// coroutines driven through the Go API (NewThread + Resume in a host function)
+	if g.R.Intn(8) == 0 {
+		b.Stmts = append(b.Stmts,
+			CallSN("emit", Str("go-api-fail"), CallN("goresume", Fn([]string{"a"}, false, Blk(CallSN("error", &ETable{Items: []TItem{{Kind: TName, Name: "code", Val: N("a")}}}))), Num(3))),
+			CallSN("emit", Str("go-api-rt"), &EParen{X: CallN("goresume", Fn(nil, false, Blk(Local1("z", Bin("+", &ENil{}, Num(1))))))}),
+			CallSN("emit", Str("go-api-ok"), CallN("goresume", Fn([]string{"a", "b"}, false, Blk(Return(N("b"), N("a")))), Num(1), Num(2))),
+			CallSN("emit", Str("go-api-yield"), CallN("goresume", Fn([]string{"a"}, false, Blk(&SCall{Call: co("yield", N("a"), Str("y"))}, Return(Num(0)))), Num(9))))
+		g.cover("co:go-api")
+	}
 	// many contained failures of wrap functions leave nothing behind: afterwards coroutines work as before
 	if g.R.Intn(10) == 0 {
 		n := []int{199, 201, 250, 420}[g.R.Intn(4)]
